@@ -107,6 +107,86 @@ type subMode struct {
 
 var cur *subMode
 
+func subscribeFn(p graphql.ResolveParams) (interface{}, error) {
+	switch cur.kind {
+	case "stream":
+		return cur.src, nil
+	case "value":
+		return cur.val, nil
+	case "subNil":
+		return nil, nil
+	case "subPanicErr":
+		panic(errors.New("subscribe panicked"))
+	case "subPanicStr":
+		panic("subscribe panicked")
+	}
+	return nil, errors.New("cannot subscribe")
+}
+
+// paintString: what the `paint` field resolves to: the event and the *internal* argument values the resolver saw
+func paintString(n int, args map[string]interface{}) string {
+	return fmt.Sprintf("e%d|%s", n, hx.Canon(args))
+}
+
+// Types whose variable coercion is not idempotent: coercing an already coerced value gives an error or another value.
+var colorEnum = graphql.NewEnum(graphql.EnumConfig{Name: "Color", Values: graphql.EnumValueConfigMap{
+	"RED": &graphql.EnumValueConfig{Value: 0}, "GREEN": &graphql.EnumValueConfig{Value: 1}, "BLUE": &graphql.EnumValueConfig{Value: 2}}})
+
+// internal values are the names of *other* values: a second coercion silently yields a different value
+var swapEnum = graphql.NewEnum(graphql.EnumConfig{Name: "Swap", Values: graphql.EnumValueConfigMap{
+	"A": &graphql.EnumValueConfig{Value: "B"}, "B": &graphql.EnumValueConfig{Value: "C"}, "C": &graphql.EnumValueConfig{Value: "A"}}})
+
+var wrapped = graphql.NewScalar(graphql.ScalarConfig{
+	Name:       "Wrapped",
+	Serialize:  func(v interface{}) interface{} { return v },
+	ParseValue: func(v interface{}) interface{} { return fmt.Sprintf("w(%v)", v) },
+	ParseLiteral: func(v ast.Value) interface{} {
+		return fmt.Sprintf("w(%v)", v.GetValue())
+	},
+})
+
+var paintInput = graphql.NewInputObject(graphql.InputObjectConfig{Name: "PaintInput", Fields: graphql.InputObjectConfigFieldMap{
+	"color":  &graphql.InputObjectFieldConfig{Type: colorEnum},
+	"swap":   &graphql.InputObjectFieldConfig{Type: swapEnum},
+	"w":      &graphql.InputObjectFieldConfig{Type: wrapped},
+	"colors": &graphql.InputObjectFieldConfig{Type: graphql.NewList(colorEnum)},
+}})
+
+// varCase: a subscription that takes variables. Args = the internal argument values the resolver must see for
+// every event (computed by hand from the raw variables, independent of the library).
+type varCase struct {
+	query string
+	vars  map[string]interface{}
+	args  map[string]interface{}
+}
+
+var varCases = []varCase{
+	{}, // index 0 = no variables: the `tick` document
+	{`subscription S($c: Color) { paint(color: $c) }`, map[string]interface{}{"c": "GREEN"}, map[string]interface{}{"color": 1}},
+	{`subscription S($c: Color = GREEN) { paint(color: $c) }`, map[string]interface{}{}, map[string]interface{}{"color": 1}},
+	{`subscription S($c: Color!) { paint(color: $c) }`, map[string]interface{}{"c": "RED"}, map[string]interface{}{"color": 0}},
+	{`subscription S($s: Swap) { paint(swap: $s) }`, map[string]interface{}{"s": "A"}, map[string]interface{}{"swap": "B"}},
+	{`subscription S($s: Swap = C) { paint(swap: $s) }`, nil, map[string]interface{}{"swap": "A"}},
+	{`subscription S($w: Wrapped) { paint(w: $w) }`, map[string]interface{}{"w": "x"}, map[string]interface{}{"w": "w(x)"}},
+	{`subscription S($in: PaintInput) { paint(in: $in) }`,
+		map[string]interface{}{"in": map[string]interface{}{"color": "BLUE", "swap": "B", "w": 5, "colors": []interface{}{"RED", "GREEN"}}},
+		map[string]interface{}{"in": map[string]interface{}{"color": 2, "swap": "C", "w": "w(5)", "colors": []interface{}{0, 1}}}},
+	{`subscription S($cs: [Color], $ss: [Swap!]) { paint(colors: $cs, swaps: $ss) }`,
+		map[string]interface{}{"cs": []interface{}{"BLUE", "RED"}, "ss": []interface{}{"C", "A"}},
+		map[string]interface{}{"colors": []interface{}{2, 0}, "swaps": []interface{}{"A", "B"}}},
+	{`subscription S { paint(color: BLUE, swap: B) }`, nil, map[string]interface{}{"color": 2, "swap": "C"}},
+	{`subscription S($c: Color, $s: Swap = A, $w: Wrapped) { paint(color: $c, swap: $s, w: $w) }`,
+		map[string]interface{}{"c": "BLUE", "w": 3}, map[string]interface{}{"color": 2, "swap": "B", "w": "w(3)"}},
+}
+
+// handExpected: the canonical result of one event of a varCase, computed without the library
+func handExpected(vc varCase, e [2]int) string {
+	if e[0] == 1 {
+		return hx.Canon(map[string]interface{}{"data": map[string]interface{}{"paint": nil}, "errs": []errEntry{{Ctx: false, Path: []string{"paint"}}}})
+	}
+	return hx.Canon(map[string]interface{}{"data": map[string]interface{}{"paint": paintString(e[1], vc.args)}, "errs": []errEntry{}})
+}
+
 func buildSchema() graphql.Schema {
 	tick := graphql.NewObject(graphql.ObjectConfig{Name: "Tick", Fields: graphql.Fields{
 		"n": &graphql.Field{Type: graphql.Int, Resolve: func(p graphql.ResolveParams) (interface{}, error) { return p.Source.(evT).N, nil }},
@@ -127,22 +207,29 @@ func buildSchema() graphql.Schema {
 	schema, err := graphql.NewSchema(graphql.SchemaConfig{
 		Query: graphql.NewObject(graphql.ObjectConfig{Name: "Query", Fields: graphql.Fields{"q": &graphql.Field{Type: graphql.Int}}}),
 		Subscription: graphql.NewObject(graphql.ObjectConfig{Name: "Subscription", Fields: graphql.Fields{
-			"tick": &graphql.Field{Type: tick,
-				Subscribe: func(p graphql.ResolveParams) (interface{}, error) {
-					switch cur.kind {
-					case "stream":
-						return cur.src, nil
-					case "value":
-						return cur.val, nil
-					case "subNil":
-						return nil, nil
-					case "subPanicErr":
-						panic(errors.New("subscribe panicked"))
-					case "subPanicStr":
-						panic("subscribe panicked")
-					}
-					return nil, errors.New("cannot subscribe")
+			"paint": &graphql.Field{Type: graphql.String,
+				Args: graphql.FieldConfigArgument{
+					"color":  &graphql.ArgumentConfig{Type: colorEnum},
+					"swap":   &graphql.ArgumentConfig{Type: swapEnum},
+					"w":      &graphql.ArgumentConfig{Type: wrapped},
+					"in":     &graphql.ArgumentConfig{Type: paintInput},
+					"colors": &graphql.ArgumentConfig{Type: graphql.NewList(colorEnum)},
+					"swaps":  &graphql.ArgumentConfig{Type: graphql.NewList(graphql.NewNonNull(swapEnum))},
 				},
+				Subscribe: subscribeFn,
+				Resolve: func(p graphql.ResolveParams) (interface{}, error) {
+					e, ok := p.Source.(evT)
+					if !ok {
+						return nil, fmt.Errorf("unexpected root value %T", p.Source)
+					}
+					if e.K == 1 {
+						return nil, errors.New("root failed")
+					}
+					return paintString(e.N, p.Args), nil
+				},
+			},
+			"tick": &graphql.Field{Type: tick,
+				Subscribe: subscribeFn,
 				Resolve: func(p graphql.ResolveParams) (interface{}, error) {
 					e, ok := p.Source.(evT)
 					if code, special := classify(p.Source); !ok && special {
@@ -341,6 +428,7 @@ type caseT struct {
 	Consumer string   `json:"consumer"` // prompt | slow | stopped
 	Finale   string   `json:"finale"`   // complete | cancel
 	Flip     bool     `json:"flip"`     // R: let the cancelling goroutine run before the receive
+	Vars     int      `json:"vars"`     // index into varCases (0 = the document without variables)
 }
 
 type observation struct {
@@ -410,15 +498,19 @@ func (r *runner) start() {
 	if len(r.c.Events) > 0 {
 		cur.val = evT{K: r.c.Events[0][0], N: r.c.Events[0][1]}
 	}
+	query, vars := r.spec.query, map[string]interface{}(nil)
+	if r.c.Vars > 0 && r.spec.model == "stream" {
+		query, vars = varCases[r.c.Vars].query, varCases[r.c.Vars].vars
+	}
 	if r.c.Entry == "execute" && r.spec.model != "invalid" {
-		doc, err := parser.Parse(parser.ParseParams{Source: r.spec.query})
+		doc, err := parser.Parse(parser.ParseParams{Source: query})
 		if err != nil {
 			r.obs.Fault = "harness: request does not parse: " + err.Error()
 			return
 		}
-		r.ch = graphql.ExecuteSubscription(graphql.ExecuteParams{Schema: r.schema, AST: doc, OperationName: r.spec.op, Context: r.ctx})
+		r.ch = graphql.ExecuteSubscription(graphql.ExecuteParams{Schema: r.schema, AST: doc, OperationName: r.spec.op, Args: vars, Context: r.ctx})
 	} else {
-		r.ch = graphql.Subscribe(graphql.Params{Schema: r.schema, RequestString: r.spec.query, OperationName: r.spec.op, Context: r.ctx})
+		r.ch = graphql.Subscribe(graphql.Params{Schema: r.schema, RequestString: query, OperationName: r.spec.op, VariableValues: vars, Context: r.ctx})
 	}
 	switch r.spec.model {
 	case "invalid":
@@ -877,13 +969,43 @@ func main() {
 	}
 	defer drv.Close()
 	schema := buildSchema()
-	run.Res.Rule = "schedules = sequences of harness intents (P produce next event, O offer next event in the background, D consumer receives, R receive racing with cancel, C cancel, X close source, W wait for the forwarder to leave, S consumer stops, Z consumer pauses) enumerated depth-first under the model's enabledness, then a finale (complete: deliver/produce everything, close the source; or cancel: cancel and give no consumer help); requests: stream with 0..4 events of 11 payload kinds (ok, root resolver fails, nullable leaf fails, non-null leaf null, and the closure look-alikes nil, empty map, typed nil pointer, false, 0, \"\", empty slice — each also swept over every position of sequences of 1..4 events), 9 one-shot failures inside the goroutine, non-channel value, parse and validation errors; entries graphql.Subscribe and ExecuteSubscription; the real run is recorded as model actions and validated by the compiled Lean model; non-trivial = the recorded run has >= 3 model actions (>= 1 for one-shot requests); distinct by (request, entry, events, intents, consumer, finale)"
+	run.Res.Rule = "schedules = sequences of harness intents (P produce next event, O offer next event in the background, D consumer receives, R receive racing with cancel, C cancel, X close source, W wait for the forwarder to leave, S consumer stops, Z consumer pauses) enumerated depth-first under the model's enabledness, then a finale (complete: deliver/produce everything, close the source; or cancel: cancel and give no consumer help); requests: stream with 0..4 events of 11 payload kinds (ok, root resolver fails, nullable leaf fails, non-null leaf null, and the closure look-alikes nil, empty map, typed nil pointer, false, 0, \"\", empty slice — each also swept over every position of sequences of 1..4 events); a quarter of the stream cases (plus a sweep) subscribe with variables whose coercion is not idempotent (enum with int internal values, enum whose internal values are names of other values, custom scalar that rewrites its value, input object and lists of these, defaults, provided values, literals) and compare every delivered result with graphql.Execute of the same selection on the event with the same raw variables, cross-checked by a hand-computed expectation, 9 one-shot failures inside the goroutine, non-channel value, parse and validation errors; entries graphql.Subscribe and ExecuteSubscription; the real run is recorded as model actions and validated by the compiled Lean model; non-trivial = the recorded run has >= 3 model actions (>= 1 for one-shot requests); distinct by (request, entry, events, intents, consumer, finale)"
 
 	one := func(c caseT) {
 		spec, okSpec := reqSpecs[c.Req]
 		if !okSpec {
 			run.CheckError("unknown request kind " + c.Req)
 			return
+		}
+		// subscriptions with variables: the reference result of every event = the same selection executed by
+		// graphql.Execute on the event as root value with the same raw variables (what the property demands of
+		// each delivered result), cross-checked with the hand-computed expectation
+		reference := []string{}
+		refFault := ""
+		if c.Vars > 0 && spec.model == "stream" {
+			if c.Vars >= len(varCases) {
+				run.CheckError("unknown variable case")
+				return
+			}
+			vc := varCases[c.Vars]
+			doc, err := parser.Parse(parser.ParseParams{Source: vc.query})
+			if err != nil {
+				run.CheckError("variable case does not parse: " + err.Error())
+				return
+			}
+			for _, e := range c.Events {
+				ref := canonResult(graphql.Execute(graphql.ExecuteParams{Schema: schema, Root: mkEvent(e[0], e[1]), AST: doc, Args: vc.vars, Context: context.Background()}))
+				reference = append(reference, ref)
+				if hand := handExpected(vc, e); hand != ref && refFault == "" {
+					refFault = "graphql.Execute of the selection on the event with the raw variables gives " + ref + ", the independent expectation is " + hand
+				}
+			}
+			for i := 0; i < 50; i++ {
+				if _, ex := subGoroutines(); ex == 0 {
+					break
+				}
+				runtime.Gosched()
+			}
 		}
 		runtime.Gosched()
 		baseline := runtime.NumGoroutine()
@@ -918,6 +1040,13 @@ func main() {
 		switch spec.model {
 		case "stream":
 			req = map[string]interface{}{"kind": "stream", "events": c.Events}
+			if c.Vars > 0 {
+				ev := make([][2]int, len(c.Events))
+				for i := range ev {
+					ev[i] = [2]int{99, i}
+				}
+				req["events"] = ev
+			}
 		case "invalid":
 			req = map[string]interface{}{"kind": "invalid", "r": map[string]interface{}{"t": "opaque", "s": plainErrCanon}}
 		default:
@@ -931,7 +1060,7 @@ func main() {
 			req = map[string]interface{}{"kind": "oneShot", "r": res}
 		}
 		var m modelResp
-		if err := drv.Ask(map[string]interface{}{"req": req, "acts": trace}, &m); err != nil {
+		if err := drv.Ask(map[string]interface{}{"req": req, "acts": trace, "expect": reference}, &m); err != nil {
 			run.CheckError(err.Error())
 			r.cleanup()
 			return
@@ -947,7 +1076,7 @@ func main() {
 		run.Tag(fmt.Sprintf("events:%d", len(c.Events)))
 		if spec.model == "stream" {
 			for _, e := range c.Events {
-				if e[0] >= kNil {
+				if e[0] >= kNil && c.Vars == 0 {
 					run.Tag(fmt.Sprintf("payload-kind:%d", e[0]))
 				}
 			}
@@ -976,15 +1105,24 @@ func main() {
 		nontrivial := len(trace) >= 3 || (spec.model != "stream" && len(trace) >= 1)
 		run.Case(hx.Canon(c), nontrivial, map[string]interface{}{"case": c, "trace": trace, "delivered": len(r.obs.Delivered)})
 
-		replay := map[string]interface{}{"case": c, "observed": r.obs, "model_trace": trace, "model": m}
+		replay := map[string]interface{}{"case": c, "observed": r.obs, "model_trace": trace, "model": m, "reference": reference}
+		if c.Vars > 0 {
+			run.Tag(fmt.Sprintf("variables:case-%d", c.Vars))
+			replay["query"], replay["variables"] = varCases[c.Vars].query, varCases[c.Vars].vars
+		}
 		bad := ""
 		switch {
+		case refFault != "":
+			bad = refFault
 		case r.obs.Fault != "":
 			bad = r.obs.Fault
 		case !m.Valid:
 			bad = fmt.Sprintf("the observed run is not a run of the model: action %d (%s) is not enabled there (model state: forwarder %s, cancelled %v, pending %d, consumer %s)", *m.FailedAt, *m.FailedAct, m.Fwd, m.Cancelled, m.Pending, m.Consumer)
 		case hx.Canon(want) != hx.Canon(r.obs.Delivered):
 			bad = "delivered results differ from the model's (one mapped result per source event, in order)"
+			if c.Vars > 0 {
+				bad += "; the subscription takes variables: each result must equal graphql.Execute of the same selection on the event with the same raw variables (see query, variables, reference in the replay)"
+			}
 		case m.Closed != r.obs.Closed:
 			bad = fmt.Sprintf("result channel closed: observed %v, model %v", r.obs.Closed, m.Closed)
 		case m.Alive:
@@ -1171,6 +1309,30 @@ func main() {
 			}
 		}
 	}
+	// every variable case with 1..3 events, run to completion (prompt / slow consumer), cancelled mid-stream, and
+	// with a consumer that stops
+	for vi := 1; vi < len(varCases) && !run.TooManyViolations(); vi++ {
+		for n := 1; n <= 3; n++ {
+			for _, v := range []struct{ consumer, intents, finale string }{
+				{"prompt", "", "complete"},
+				{"slow", strings.Repeat("PD", n), "complete"},
+				{"slow", "PD", "cancel"},
+				{"stopped", "PS", "cancel"},
+			} {
+				for _, entry := range []string{"subscribe", "execute"} {
+					ev := make([][2]int, n)
+					for k := range ev {
+						ev[k] = [2]int{0, 20 + k}
+					}
+					if n == 3 {
+						ev[1][0] = 1
+					}
+					one(caseT{Req: "stream", Entry: entry, Events: ev, Intents: v.intents, Consumer: v.consumer, Finale: v.finale, Vars: vi})
+					run.Tag("variables-sweep")
+				}
+			}
+		}
+	}
 	off := int(run.Seed) % stride
 	entries := []string{"subscribe", "execute"}
 	passes := [][2]int{{procs, stride}}
@@ -1197,6 +1359,12 @@ func main() {
 						kind = rg.Range(1, kindCount-1)
 					}
 					c.Events[k] = [2]int{kind, rg.Range(0, 99)}
+				}
+				if rg.Chance(1, 4) { // a quarter of the schedules run a subscription that takes variables
+					c.Vars = 1 + rg.Intn(len(varCases)-1)
+					for k := range c.Events {
+						c.Events[k][0] = rg.Intn(2) * rg.Intn(2) // kind 0, sometimes 1
+					}
 				}
 				one(c)
 				idx++
